@@ -51,6 +51,7 @@ type modelVar struct {
 	Name string // Go-level name (parameter / global)
 	Term Term
 	Ty   types.Type
+	NDecl int   // number of declarations after which the term exists
 }
 
 type retInfo struct {
@@ -85,6 +86,11 @@ type frame struct {
 	tupleLocs map[ssa.Value][]*Loc
 	closures []*ssa.MakeClosure
 	retLocs  map[int]*Loc
+	retLocConflict bool
+	nodeField map[ssa.Value]Term
+	names    map[*ssa.BasicBlock]map[string]ssa.Value // source-level variable -> current SSA value at block end
+	curNames map[string]ssa.Value
+	callOrd  map[*ssa.Call]string // "callee#k" by source order
 }
 
 type loopState struct {
@@ -155,7 +161,7 @@ type enc struct {
 func newEnc(w *World, ss *SpecSet, fn *ssa.Function) *enc {
 	e := newEnc0(w, ss, fn)
 	e.so.of(strSliceTy)
-	for _, n := range []string{"Itoa", "Upper", "Lower", "SplitF", "JoinF", "TrimSpaceF"} {
+	for _, n := range []string{"Itoa", "Upper", "Lower", "SplitF", "JoinF", "TrimSpaceF", "TrimLeftF"} {
 		e.ufs[n] = true
 	}
 	e.axUsed = map[string]bool{}
@@ -172,7 +178,8 @@ func newEnc0(w *World, ss *SpecSet, fn *ssa.Function) *enc {
 func newFrame(fn *ssa.Function, parent *frame) *frame {
 	f := &frame{fn: fn, val: map[ssa.Value]Term{}, loc: map[ssa.Value]*Loc{}, prov: map[ssa.Value]*Loc{}, tuples: map[ssa.Value][]Term{},
 		at: map[*ssa.BasicBlock]Term{}, atEnd: map[*ssa.BasicBlock]Term{}, memOut: map[*ssa.BasicBlock]map[string]Term{},
-		loops: map[*ssa.BasicBlock]*loopState{}, parent: parent, rangeOf: map[ssa.Value]*rangeState{}, params: map[string]ssa.Value{}}
+		loops: map[*ssa.BasicBlock]*loopState{}, parent: parent, rangeOf: map[ssa.Value]*rangeState{}, params: map[string]ssa.Value{},
+		names: map[*ssa.BasicBlock]map[string]ssa.Value{}}
 	if parent != nil {
 		f.depth = parent.depth + 1
 	}
@@ -450,7 +457,7 @@ func (e *enc) ensureGlobal(g *ssa.Global) string {
 		} else {
 			e.mem[key] = e.fresh("g0_"+g.Name(), e.so.of(elem))
 			e.assumeWF(e.mem[key], elem, 2)
-			e.inputs = append(e.inputs, modelVar{Name: g.Pkg.Pkg.Name() + "." + g.Name(), Term: e.mem[key], Ty: elem})
+			e.inputs = append(e.inputs, modelVar{Name: g.Pkg.Pkg.Name() + "." + g.Name(), Term: e.mem[key], Ty: elem, NDecl: len(e.decls)})
 		}
 		// make the initial value visible to every already-saved snapshot (entry memory etc.)
 		for f := e.fr; f != nil; f = f.parent {
